@@ -409,6 +409,14 @@ def run(prog, rep):
     for t in ("datetime.datetime", "datetime.date", "datetime.time"):
         rep.check(t in handled, "SER-1", "JSON serialiser handles %s" % t, "ok", "%s values make json.dumps raise" % t, ser.where,
                   witness="a %s valued Property cannot be saved as JSON" % t.split(".")[1])
+    # the text written for a date / time value is the ISO text (str / isoformat) that the dtype converters parse back on every platform; strftime
+    # pads %Y only where the C library does ("850-06-01" on glibc), which strptime then refuses
+    for r0 in [y for y in walk_no_nested(ser.node) if isinstance(y, ast.Return) and y.value is not None]:
+        for c in calls_in(r0.value):
+            if isinstance(c.func, ast.Attribute) and c.func.attr in ("strftime", "__format__") or (call_name(c) == "format" and len(c.args) == 2):
+                rep.fail("SER-1", "JSON serialiser|strftime", "JSONDateTimeSerializer.default renders with `%s`: the year of a date before 1000 is "
+                                                              "written without leading zeros on glibc and cannot be read back" % unparse(c)[:50], where(ser, c),
+                         witness="a date 0850-06-01 saved as JSON: '850-06-01', load fails")
     rep.check("json.JSONEncoder.default(self" in txt or "super(" in txt, "SER-1", "JSON serialiser defers unknown types", "ok",
               "unknown types are no longer rejected by the base encoder", ser.where)
     reps = [c for c in calls_in(ts.node) if call_name(c) == "yaml.add_representer"]
